@@ -287,7 +287,7 @@ def campaign(ctx, rounds):
                 g.close()
 
 
-def damaged_share_among_few_servers(ctx, rounds):
+def damaged_share_among_few_servers(ctx, rounds, rng=None):
     """Corpus family (was a genuine defect, fixed in /repo): more servers than shares, one share with a
     valid signature but a truncated body; the read-cap reader's first survey (k+epsilon servers) may see
     the damaged share and only k-1 others: the read must still succeed because k intact shares are
@@ -295,14 +295,15 @@ def damaged_share_among_few_servers(ctx, rounds):
     import grid
     from allmydata.mutable.publish import MutableData
     from allmydata.interfaces import SDMF_VERSION, MDMF_VERSION
+    rng = rng or ctx.rng
     for r in range(rounds):
-        seed = ctx.rng.randrange(1 << 30)
-        fmt = ctx.rng.choice([SDMF_VERSION, SDMF_VERSION, MDMF_VERSION])
+        seed = rng.randrange(1 << 30)
+        fmt = rng.choice([SDMF_VERSION, SDMF_VERSION, MDMF_VERSION])
         with grid.Runtime(seed=seed) as rt:
             g = grid.Grid(grid.fresh_dir("c10d"), rt, num_servers=6, k=2, happy=1, n=3)
             try:
                 c = g.clients[0]
-                content = b"D" * ctx.rng.choice([1, 43, 300]) + b"-only-version"
+                content = b"D" * rng.choice([1, 43, 300]) + b"-only-version"
                 node = rt.wait(c.create_mutable_file(MutableData(content), version=fmt))
                 files = g.share_files(node.get_storage_index())
                 for (i, sh, p) in files:
@@ -310,7 +311,7 @@ def damaged_share_among_few_servers(ctx, rounds):
                     _, data = read_share(p)
                     fl = share_fields(data)
                     lo = max(fl["signature"][1], fl["pubkey"][1], 123)
-                    cut = DATA_OFFSET + ctx.rng.randrange(lo, max(lo + 1, len(data)))
+                    cut = DATA_OFFSET + rng.randrange(lo, max(lo + 1, len(data)))
                     open(p, "wb").write(raw[:cut])
                     st, val = try_read(rt, fresh_node(c, node.get_readonly_uri()))
                     case = {"fmt": "SDMF" if fmt == SDMF_VERSION else "MDMF", "k": 2, "n": 3, "servers": 6, "seed": seed,
@@ -689,14 +690,15 @@ def run_tree_events_impl(seedfam, n, evs, nfam=3):
     return "%s | %s" % ("".join(out) or "-", rs)
 
 
-def retrieve_tree_cases(ctx, count):
+def retrieve_tree_cases(ctx, count, corpus=True):
     import grid
     lines, impls, cases = [], [], []
-    corpus = [(0, 4, ["t:0:1", "t:1:1", "o:2:0", "o:3:0"]),                   # the surplus-variant history
+    corpus = [] if not corpus else [(0, 4, ["t:0:1", "t:1:1", "o:2:0", "o:3:0"]),                   # the surplus-variant history
               (0, 8, ["o:5:0", "t:2:2", "t:3:2", "t:6:1", "o:7:0"]),
               (0, 5, ["o:0:1", "o:1:1", "o:2:1", "o:3:0", "o:4:0"]),          # the reset-variant history
               (0, 4, ["d:0:0:1", "o:1:1", "o:2:1", "o:3:0"]),
               (0, 4, ["x:0", "o:1:2", "o:2:2", "o:3:0"]),
+              (0, 4, ["o:0:0", "o:2:0", "d:3:0:1", "d:1:0:2"]),               # leaf values already known: no chain is asked for
               (None, 4, ["o:0:1", "o:1:1", "o:2:0"]), (None, 3, ["o:2:1", "x:0", "o:1:1"])]
     with grid.Runtime(seed=0) as rt:
         for c in range(count + len(corpus)):
@@ -864,8 +866,8 @@ def shared_server_scenario(ctx, prm):
             g.close()
 
 
-def shared_server_family(ctx, rounds):
-    corpus = [{"fmt": "SDMF", "k": 2, "n": 3, "servers": 2, "seed": 1, "policy": "fifo",
+def shared_server_family(ctx, rounds, corpus=True):
+    corpus = [] if not corpus else [{"fmt": "SDMF", "k": 2, "n": 3, "servers": 2, "seed": 1, "policy": "fifo",
                "trials": [{"damaged": [0], "field": "share_data", "pos": 0}, {"damaged": [1], "field": "share_data", "pos": 0},
                           {"damaged": [2], "field": "share_data", "pos": 0}]}]
     for prm in corpus:
@@ -979,13 +981,14 @@ def run_retrieve_loop_impl(k, shares):
     return "no-progress"
 
 
-def retrieve_loop_cases(ctx, count):
+def retrieve_loop_cases(ctx, count, corpus=True):
     import grid
     lines, impls, cases = [], [], []
-    corpus = [(2, [(0, 0, False), (1, 1, True), (2, 0, True)])]
+    probe = (2, [(0, 0, False), (1, 1, True), (2, 0, True)])
+    corpus = [probe] if corpus else []
     with grid.Runtime(seed=0):
         # which bad-share handling does this tree have?  (since /repo 280b4a6: the share goes; before: its whole server)
-        variant = "f" if run_retrieve_loop_impl(*corpus[0]) == "ok:1,2" else "t"
+        variant = "f" if run_retrieve_loop_impl(*probe) == "ok:1,2" else "t"
         ctx.count("retrieve-loop:variant=" + variant)
         for c in range(count + len(corpus)):
             if c < len(corpus):
@@ -1270,6 +1273,32 @@ def chain_rewrite_family(ctx, rounds):
                                      "maxseg": ctx.rng.choice([16, 24, 50]), "size": ctx.rng.choice([33, 90, 200]), "trials": trials})
 
 
+def fixed_minimal_corpus(ctx):
+    """One minimal, fully fixed instance of each random family that is the only catcher of some past
+    change (nothing here draws from ctx.rng): the VERIF_CORPUS_ONLY run ends after this."""
+    import random as _random
+    # signed prefix altered next to intact shares (servermap signature cache keyed too coarsely)
+    for fmt, policy in (("SDMF", "fifo"), ("MDMF", "lifo"), ("SDMF", "random")):
+        prefix_alteration_scenario(ctx, {"fmt": fmt, "k": 2, "n": 4, "servers": 4, "seed": 21, "policy": policy, "size": 20,
+                                         "trials": [[0], [3], [1], [2]]})
+    # mutually consistent forgeries (share hash tree must stay tied to the signed root), and a forged share met
+    # when its leaf value is already known so that no chain is requested (the leaf check must not depend on one)
+    t = lambda forged, damaged, jc: {"jclass": jc, "forged": forged, "damaged": damaged, "dmgpos": 3, "garbage": False,      # noqa: E731
+                                      "fresh_salts": False, "evil": 5}
+    forgery_scenario(ctx, {"fmt": "SDMF", "k": 2, "n": 4, "servers": 4, "seed": 31, "policy": "fifo", "maxseg": 16, "size": 33,
+                           "trials": [t([0, 1, 2], None, "k+1"), t([0, 1, 2, 3], None, "N"), t([1, 2], 0, "k"), t([0], None, "k-1")]})
+    forgery_scenario(ctx, {"fmt": "MDMF", "k": 3, "n": 5, "servers": 5, "seed": 32, "policy": "lifo", "maxseg": 24, "size": 90,
+                           "trials": [t([0, 1, 2, 3], None, "k+1"), t([3], 1, "single"), t([4], 0, "single"), t([0, 1, 2, 3, 4], 2, "N")]})
+    forgery_scenario(ctx, {"fmt": "SDMF", "k": 3, "n": 5, "servers": 5, "seed": 33, "policy": "fifo", "maxseg": 24, "size": 90,
+                           "trials": [t([3], 1, "single"), t([3, 4], 0, "k-1"), t([2, 3, 4], 0, "k")]})
+    # more servers than shares, one share with a valid signature and a truncated body (read-only retry must survey all servers)
+    damaged_share_among_few_servers(ctx, 8, rng=_random.Random("c10-fixed-few-servers"))
+    # several shares per server, one of them bad (only that share may be dropped)
+    shared_server_family(ctx, 0, corpus=True)
+    retrieve_loop_cases(ctx, 0, corpus=True)
+    retrieve_tree_cases(ctx, 0, corpus=True)
+
+
 def run(ctx):
     import common
     common.setup_impl_path()
@@ -1289,14 +1318,15 @@ def run(ctx):
     offset_table_corpus(ctx)
     two_verinfos_corpus(ctx)
     chain_rewrite_corpus(ctx)
+    fixed_minimal_corpus(ctx)
     if os.environ.get("VERIF_CORPUS_ONLY"):
         return
     consistent_forgery_family(ctx, ctx.budget(12, 240))
-    retrieve_tree_cases(ctx, ctx.budget(300, 20000))
+    retrieve_tree_cases(ctx, ctx.budget(300, 20000), corpus=False)
     versionmap_cases(ctx, ctx.budget(300, 20000))
-    retrieve_loop_cases(ctx, ctx.budget(300, 20000))
+    retrieve_loop_cases(ctx, ctx.budget(300, 20000), corpus=False)
     prefix_alteration_family(ctx, ctx.budget(6, 120))
-    shared_server_family(ctx, ctx.budget(6, 120))
+    shared_server_family(ctx, ctx.budget(6, 120), corpus=False)
     chain_rewrite_family(ctx, ctx.budget(8, 160))
     single_share_cases(ctx, ctx.budget(3, 60))
     damaged_share_among_few_servers(ctx, ctx.budget(14, 200))
